@@ -1195,8 +1195,8 @@ impl ParseError {
     pub fn invalid_encoding_len(&self, subject: &str) -> usize {
         match self {
             Self::NoLeadingSlash => 0,
-            Self::InvalidEncoding { offset, .. } => {
-                if *offset < subject.len() - 1 {
+            Self::InvalidEncoding { .. } => {
+                if self.complete_offset() < subject.len() - 1 {
                     2
                 } else {
                     1
